@@ -408,6 +408,25 @@ pub fn directed(property: &str) -> Vec<Trace> {
     let pull = |p: usize, s: usize| Step::Pull { puller: p, server: s, room: 0, cut: None };
     match property {
         "C11" => {
+            // a reference is deleted on A; B's pull from A is cut somewhere between the deletion records and the rows;
+            // B then pulls from C, which has not seen the deletion: the reference must not come back on B
+            for cut in [6usize, 8, 9, 10, 11, 12, 13, 14, 16] {
+                out.push(mk(
+                    &format!("C11 reference deleted on A; B<-A cut after {cut} messages; B<-C (stale)"),
+                    3,
+                    vec![
+                        Step::Create { node: 0, row: 0, room: 0, ent: 0, text: "alpha v1".into(), dt: 1 },
+                        Step::Create { node: 0, row: 1, room: 0, ent: 0, text: "bravo7 v1".into(), dt: 1 },
+                        Step::RefAdd { node: 0, row: 0, target: 1, dt: 1000 },
+                        pull(2, 0),
+                        Step::RefDel { node: 0, row: 0, target: 1, dt: 1000 },
+                        Step::Pull { puller: 1, server: 0, room: 0, cut: Some(cut) },
+                        pull(1, 2),
+                        Step::Check,
+                    ],
+                    vec!["C11"],
+                ));
+            }
             // delete on A; B<-A; B<-C; A<-B (C still holds the row)
             for del_dt in [1000i64, DAY_MS] {
                 out.push(mk(
@@ -535,6 +554,7 @@ pub fn directed(property: &str) -> Vec<Trace> {
                 vec!["C09"],
             ));
         }
+        "C11x" => {}
         "C17" => {
             out.push(mk(
                 "C17 row received through a pull, then searched on the importer",
